@@ -172,6 +172,7 @@ Inductive outcome :=
   | OConsumed       (* handle_lludp_message returned truthy: the message is not sent on (what the proxy
                        emits itself while executing a command-channel chat is not modelled) *)
   | ONonSocks       (* "Got non-SOCKS packet from local?" *)
+  | OSelfAddressed  (* "Got SOCKS packet addressed to its own sender" *)
   | OUnknownHost    (* "Got datagram from unknown host" *)
   | OPreSession     (* "Received unexpected message ... before circuit open" *)
   | OUnclaimed      (* "Wasn't able to claim session" *)
@@ -333,7 +334,11 @@ Section Model.
           match parse_socks data with
           | PExc => stop ss p OExcSocks
           | PNone => stop ss p ONonSocks
-          | POk far d => handle ss (set_f2n p (f2n_set (p_f2n p) far src)) true src far d
+          | POk far d =>
+              (* /repo dc82116: `if remote_addr == source_addr: return` - a datagram addressed to its own
+                 sender is dropped before the far address is learnt *)
+              if addr_eqb far (ip_addr src) then stop ss p OSelfAddressed
+              else handle ss (set_f2n p (f2n_set (p_f2n p) far src)) true src far d
           end
         else stop ss p OUnknownHost
     | Some _ => handle ss p false src (ip_addr src) data
